@@ -50,8 +50,25 @@ def impl_roundtrip(case):
     return 'ok' + (' ' + parsing.canon_list(back) if back else ''), list(data), fail
 
 
+HEXD = set('0123456789abcdefABCDEF')
+
+
+def text_judgement(data):
+    """Independent reading of the property's text clause: None (binary file / not judged), 'bad' (some whitespace-separated
+    token is not made of two-digit hex numbers: ValueError expected) or 'good' (only two-digit hex tokens)."""
+    if not data or data[0] == 0xf0:
+        return None
+    toks = bytes(data).decode('latin1').split()
+    if any(len(t) % 2 == 1 or any(c not in HEXD for c in t) for t in toks):
+        return 'bad'
+    if all(len(t) == 2 for t in toks):
+        return 'good'
+    return None
+
+
 def impl_read(data):
     import mido
+    verdict = text_judgement(data)
     path = os.path.join(_tmp(), 'r%d.syx' % os.getpid())
     with open(path, 'wb') as f:
         f.write(bytes(data))
@@ -59,8 +76,12 @@ def impl_read(data):
         back = mido.read_syx_file(path)
     except Exception as e:
         name = exc_name(e)
+        if verdict == 'good':
+            return 'err ' + name, f'well-formed two-digit hex text raised {type(e).__name__}: {e}'
         return 'err ' + name, (None if name in ('ValueError', 'UnicodeError') else f'read_syx_file raised {type(e).__name__}: {e}')
     fail = None
+    if verdict == 'bad':
+        fail = f'text that is not two-digit hex was accepted (read as {len(back)} message(s)) instead of raising ValueError'
     if any(m.type != 'sysex' for m in back):
         fail = 'read_syx_file returned a non-sysex message'
     return 'ok' + (' ' + parsing.canon_list(back) if back else ''), fail
@@ -105,6 +126,20 @@ def gen(ck):
             txt = txt[:k] + rng.choice(['G', 'x', '0', 'F ', ' 1 ', '\xe9', '.', '-']) + txt[k:]
         elif r < 0.2:
             txt = txt.replace('F0', 'F 0', 1)
+        elif r < 0.3 and bs:
+            # an even number of hex digits overall, but split into one-digit / three-digit tokens
+            toks = ['%02X' % b for b in bs]
+            k = rng.randrange(len(toks))
+            style = rng.random()
+            if style < 0.4:
+                toks[k:k + 1] = [toks[k][0], toks[k][1]]
+            elif style < 0.7 and k + 1 < len(toks):
+                toks[k:k + 2] = [toks[k] + toks[k + 1][0], toks[k + 1][1]]
+            else:
+                j = rng.randrange(len(toks))
+                toks[k:k + 1] = [toks[k][0], toks[k][1]]
+                toks[j:j + 1] = [toks[j][0], toks[j][1]] if len(toks[j]) == 2 else [toks[j]]
+            txt = rng.choice(WS).join(toks)
         try:
             reads.append(list(txt.encode('latin1')))
         except UnicodeError:
